@@ -258,6 +258,21 @@ func TestProp(t *testing.T) {
 		judge("enum", Case{Variant: "typemap", A: id}, nil)
 	}
 	judge("enum", Case{Variant: "typemap", A: 32771}, nil)
+	// every key usage number 0..8191 for every checksum type (value equality): the n-fold of the derivation constant
+	// runs through every carry pattern of its arithmetic within a few thousand consecutive numbers
+	r.Rule("enum usages: for every checksum type, EVERY key usage 0..8191 (thorough: 0..65535): value equality with the reference (fixed key and data per type)")
+	maxU := r.N(8191, 65535)
+	evid.Parallel(len(ref.CksumTypes)*16, 16, func(i int) {
+		ck := ref.CksumTypes[i/16]
+		et := ref.ETypeForCksum(ck)
+		lbl := fmt.Sprintf("c07/usages/%d", ck)
+		key := hex.EncodeToString(ref.RandomKey(et, kgen.DetBytes(r.Seed(), lbl+"/k", 32)))
+		data := hex.EncodeToString(kgen.DetBytes(r.Seed(), lbl+"/d", 23))
+		for u := i % 16; u <= maxU; u += 16 {
+			judge("enum", Case{Ck: ck, Usage: uint32(u), Key: key, Data: data, Variant: "value"}, nil)
+		}
+	})
+	r.Exhaustive(fmt.Sprintf("checksum type x every key usage 0..%d (value)", maxU))
 	type job struct {
 		ck int32
 		n  int
